@@ -15,16 +15,27 @@ TEXTS = {
         note=MATCH_NOTE),
     "C02": dict(
         text="Completeness of the model of match.Match proved for every supported pattern, assignment and message of C02's "
-             "quantifier (C02_match_complete), exactness for linear plain patterns, no-error on the supported fragment, and "
-             "harmlessness of extra keys/elements at any depth; planted-assignment oracle on the Go results plus model/Go comparison.",
-        note=MATCH_NOTE + " The statement for optional and inequality variables is not proved (only exercised by the correspondence)."),
+             "quantifier (C02_match_complete), for patterns with optional variables (C02_match_complete_optional: an unassigned "
+             "optional variable is an embedding exactly where the matcher allows absence) and with inequality variables bounded in "
+             "the given bindings, also inside arrays and repeated (C02_match_complete_inequality: the result is the bounds plus the "
+             "assignment); exactness for linear plain patterns, no error on the supported fragment whatever the kinds of variables, "
+             "harmlessness of extra keys/elements at any depth; the naive statements for optional variables are refuted with "
+             "witnesses; planted-assignment oracle on the Go results plus model/Go comparison.",
+        note=MATCH_NOTE + " The converse (every result is an embedding) is proved for linear plain patterns only; a repeated optional "
+             "variable bound at one occurrence and absent at another is returned but is not an embedding in the strict sense (witness in "
+             "Proofs/MatchCompleteOpt.v)."),
     "C03": dict(
         text="Order independence of the model proved for every pair of iteration-order oracles and every re-ordering of the "
              "entries of pattern, message and bound values at any depth (C03_order_independent, C03_construction_order_independent). "
-             "Purity (inputs untouched, results independent, concurrent use) is observed on the Go code: shuffled reconstructions, "
-             "deep snapshots, map-identity probes, mutation of results, 16 goroutines under the race detector.",
-        note=MATCH_NOTE + " Partial: aliasing and data-race freedom are properties of the Go runtime state that a Gallina function "
-             "cannot exhibit; they are checked by the harness probes, not proved."),
+             "Purity is proved on a heap-level model of match.go (Model/MatchHeap.v: maps at addresses, writes in place and copies "
+             "exactly where the Go code has them): it erases to the pure model (C03_heap_erasure), no map that existed before the call "
+             "is ever written or returned (C03_caller_bindings_never_written), the returned maps are pairwise distinct and allocated "
+             "by this call (C03_results_are_distinct_fresh_maps, C03_results_can_be_changed_independently), nothing is written after "
+             "it was returned (C03_no_write_after_return). The heap model's prediction is compared with the identity and mutation "
+             "probes on Go's maps in every run; shuffled reconstructions, deep snapshots, 16 goroutines under the race detector.",
+        note=MATCH_NOTE + " The heap model is hand-written after match.go (each write/copy annotated with its Go line); values below "
+             "the top level of a bindings map are immutable in the model (Go shares them with the message: outside the statement "
+             "about the returned maps). Partial: data-race freedom of concurrent Match is observed (race detector), not proved."),
 }
 
 # groups built separately: checklib/texts_<group>.py defines TEXTS / NOT_APPLICABLE / HOOK_COMMITS
